@@ -76,8 +76,15 @@ func NewValue(typ *meta.Type, v interface{}) (val.Value, error) {
 	case val.FmtEnumList:
 		return toEnumList(typ.Enum(), v)
 	case val.FmtUnion:
-		cvt, _, err := val.ConvOneOf(typ.UnionFormats(), v)
-		return cvt, err
+		// the first member type that takes the value; a member that needs its type to convert
+		// (enumeration, identityref, bits, leafref, a union in the union) cannot be tried by
+		// format alone
+		for _, member := range typ.Union() {
+			if cvt, err := NewValue(member, v); err == nil && cvt != nil {
+				return cvt, nil
+			}
+		}
+		return nil, fmt.Errorf("could not convert %v to any of the allowed types", v)
 	case val.FmtUnionList:
 		return toUnionList(typ, v)
 	case val.FmtLeafRef, val.FmtLeafRefList:
